@@ -95,18 +95,19 @@ class Protocol(Component):
 
     def __process_packet(self, packet, partial=False):
         packet = packet.decode('utf-8')
-        if partial:
-            try:
-                json.loads(packet)  # ValueError: not complete yet
-            except RecursionError:
+        try:
+            data = json.loads(packet)
+        except ValueError:
+            if partial:
+                raise
+            return
+        except RecursionError:
+            if partial:
                 raise ValueError('too deeply nested (so far)')
+            return
 
-        # FIXME: the encoding of values is hardcoded to UTF-8.
-        # at least protect against DoS attempts causing UnicodeDecodeError
-
-        if '"value":' in packet:  # FIXME: this can also be part of a call-value
+        if isinstance(data, dict) and 'name' not in data:
             self.__process_packet_value(packet)
-
         else:
             self.__process_packet_call(packet)
 
